@@ -317,8 +317,8 @@ Proof.
     pose proof (get_field_type _ _ _ _ _ G2 Hw) as Hv. cbn [wf_val] in Hv.
     unfold pm0. destruct pm; [exact Hv | apply (proj2 wf_default_mut)]. }
   apply get_bytes_some in Gp, Gq.
-  eapply wf_set; [| |reflexivity].
-  - eapply wf_set; [exact W1 | | reflexivity]. rewrite get_field_set_other by lia. exact Gp.
+  apply (wf_set s _ 5 TBytes (VBytes q)); [| |reflexivity].
+  - apply (wf_set s _ 4 TBytes (VBytes p)); [exact W1 | | reflexivity]. rewrite get_field_set_other by lia. exact Gp.
   - rewrite !get_field_set_other by lia. exact Gq.
 Qed.
 
@@ -401,16 +401,18 @@ Proof.
   - destruct (on_pub s m) as [[ps pm0]|] eqn:EO; [|discriminate].
     destruct (ecdsa_cs ps pm0) as [cs|] eqn:E; [|discriminate]. intros H.
     destruct (ec_priv_norm_pub _ _ _ _ H) as (ps' & pm & pm' & G2 & EP & G2').
-    rewrite (on_pub_before _ _ _ _ G2) in EO. inversion EO; subst ps' pm0.
-    rewrite (on_pub_after _ _ _ _ G2'). rewrite (ecdsa_cs_stable _ _ _ _ EP), E.
+    rewrite (on_pub_before _ _ _ _ G2) in EO. inversion EO; subst ps pm0.
+    rewrite (on_pub_after _ _ _ _ G2').
+    replace (ecdsa_cs ps' pm') with (Some cs) by (symmetry; rewrite (ecdsa_cs_stable _ _ _ _ EP); exact E).
     eapply ec_priv_norm_idem. exact H.
   - destruct (jwtecdsa_cs s m) as [cs|] eqn:E; [|discriminate]. intros H.
     rewrite (jwtecdsa_cs_stable _ _ _ _ H), E. eapply ec_pub_norm_idem. exact H.
   - destruct (on_pub s m) as [[ps pm0]|] eqn:EO; [|discriminate].
     destruct (jwtecdsa_cs ps pm0) as [cs|] eqn:E; [|discriminate]. intros H.
     destruct (ec_priv_norm_pub _ _ _ _ H) as (ps' & pm & pm' & G2 & EP & G2').
-    rewrite (on_pub_before _ _ _ _ G2) in EO. inversion EO; subst ps' pm0.
-    rewrite (on_pub_after _ _ _ _ G2'). rewrite (jwtecdsa_cs_stable _ _ _ _ EP), E.
+    rewrite (on_pub_before _ _ _ _ G2) in EO. inversion EO; subst ps pm0.
+    rewrite (on_pub_after _ _ _ _ G2').
+    replace (jwtecdsa_cs ps' pm') with (Some cs) by (symmetry; rewrite (jwtecdsa_cs_stable _ _ _ _ EP); exact E).
     eapply ec_priv_norm_idem. exact H.
   - destruct (ecies_cs s m) as [[cs|]|] eqn:E; [| |discriminate]; intros H.
     + rewrite (ecies_cs_stable _ _ _ _ H), E. eapply ec_pub_norm_idem. exact H.
@@ -418,8 +420,9 @@ Proof.
   - destruct (on_pub s m) as [[ps pm0]|] eqn:EO; [|discriminate].
     destruct (ecies_cs ps pm0) as [[cs|]|] eqn:E; [| |discriminate]; intros H.
     + destruct (ec_priv_norm_pub _ _ _ _ H) as (ps' & pm & pm' & G2 & EP & G2').
-      rewrite (on_pub_before _ _ _ _ G2) in EO. inversion EO; subst ps' pm0.
-      rewrite (on_pub_after _ _ _ _ G2'). rewrite (ecies_cs_stable _ _ _ _ EP), E.
+      rewrite (on_pub_before _ _ _ _ G2) in EO. inversion EO; subst ps pm0.
+      rewrite (on_pub_after _ _ _ _ G2').
+      replace (ecies_cs ps' pm') with (Some (Some cs)) by (symmetry; rewrite (ecies_cs_stable _ _ _ _ EP); exact E).
       eapply ec_priv_norm_idem. exact H.
     + inversion H; subst m'. rewrite EO, E. reflexivity.
   - apply rsa_pub_norm_idem.
@@ -448,4 +451,91 @@ Proof.
   - apply rsa_priv_norm_wf. exact Hw.
   - apply rsa_pub_norm_wf. exact Hw.
   - apply rsa_priv_norm_wf. exact Hw.
+Qed.
+
+(* ------------------------------------------------------------------ *)
+(* Re-serialising ANY accepted serialisation of a registered type reaches a
+   fixed point: the new serialisation parses to the same key, so a further
+   serialisation is byte-identical.                                      *)
+(* ------------------------------------------------------------------ *)
+Lemma lookup_unique t k a b : lookup t k = Some a -> lookup t k = Some b -> a = b.
+Proof. congruence. Qed.
+
+Theorem reserialization_fixed_point url sch T s k s' :
+  ktype_of url sch = Some T -> wf_schema sch = true ->
+  parse_key T s = Some k -> serialize_key T k = Some s' ->
+  N.of_nat (length (ks_value s')) < two64 ->
+  parse_key T s' = Some k.
+Proof.
+  intros HT Hs Hp Hser Hl.
+  assert (Hsch : kt_schema T = sch).
+  { unfold ktype_of in HT. destruct (prefix_kind_of url); inversion HT. reflexivity. }
+  (* the table facts of this URL *)
+  unfold ktype_of, prefix_kind_of in HT.
+  destruct (lookup_bytes prefix_maps url) as [[kind [custom [to_p [from_p from_kid]]]]|] eqn:E; [|discriminate].
+  destruct (lookup_bytes_in _ _ _ E) as [u Hin].
+  pose proof prefix_maps_ok as Hpm. rewrite forallb_forall in Hpm. specialize (Hpm _ Hin). unfold pm_ok in Hpm.
+  (* unfold the first parse *)
+  pose proof Hp as Hp0. unfold parse_key in Hp. rewrite Hsch in Hp.
+  destruct (decode sch (ks_value s)) as [m|] eqn:Ed; [|discriminate].
+  destruct (normalise (kt_norm T) sch m) as [m'|] eqn:En; [|discriminate].
+  assert (Hwm : wf_msg sch m' = true) by (eapply normalise_wf; [eapply decode_wf; exact Ed | exact En]).
+  assert (Hidem : normalise (kt_norm T) sch m' = Some m') by (eapply normalise_idem; exact En).
+  assert (Hfields : forall v i, k = mkGkey (ks_url s) (ks_mat s) v i m' ->
+            N.of_nat (length (encode (kt_schema T) (gk_fields k))) < two64).
+  { intros v i ->. cbn [gk_fields]. unfold serialize_key in Hser. cbn [gk_fields gk_url gk_mat gk_variant gk_id] in Hser.
+    rewrite Hsch in *.
+    destruct (kt_prefix T) as [a b|c a b d e|].
+    - destruct (lookup a v); [|discriminate]. apply new_key_serialization_some in Hser. destruct Hser as [-> _]. exact Hl.
+    - destruct (lookup a v); [|discriminate]. apply new_key_serialization_some in Hser. destruct Hser as [-> _]. exact Hl.
+    - apply new_key_serialization_some in Hser. destruct Hser as [-> _]. exact Hl. }
+  destruct (kind =? 1) eqn:K1.
+  - (* prefix ignored *)
+    inversion HT; subst T. cbn [kt_prefix kt_schema kt_norm] in *. inversion Hp; subst k.
+    eapply parse_serialize_key; cbn [kt_schema kt_norm kt_prefix gk_fields]; try eassumption.
+    + eapply (Hfields 0 0). reflexivity.
+    + unfold variant_ok. cbn [kt_prefix gk_variant gk_id]. auto.
+  - destruct (kind =? 2) eqn:K2.
+    + (* JWT *)
+      destruct (lookup_bytes jwt_kid_paths url) as [path|]; [|discriminate].
+      inversion HT; subst T. cbn [kt_prefix kt_schema kt_norm] in *.
+      rewrite !andb_true_iff in Hpm. destruct Hpm as [[[_ S1] S2] NC].
+      set (kid := has_path sch m' path) in *.
+      destruct (lookup (if kid then from_kid else from_p) (ks_prefix s)) as [v|] eqn:Ev; [|discriminate].
+      destruct (kid && negb (v =? custom)) eqn:Ek; [discriminate|]. inversion Hp; subst k.
+      eapply parse_serialize_key; cbn [kt_schema kt_norm kt_prefix gk_fields]; try eassumption.
+      * eapply (Hfields v (ks_id s)). reflexivity.
+      * unfold variant_ok. cbn [kt_prefix kt_schema gk_fields gk_variant]. fold kid.
+        assert (Hiff : kid = true <-> v = custom).
+        { split.
+          - intros Hk. rewrite Hk in Ek. cbn [andb] in Ek. apply negb_false_iff, N.eqb_eq in Ek. exact Ek.
+          - intros ->. destruct kid eqn:Hk; [reflexivity|]. exfalso.
+            rewrite forallb_forall in NC. specialize (NC _ (lookup_in _ _ _ Ev)). cbn [snd] in NC.
+            rewrite N.eqb_refl in NC. discriminate. }
+        split; [exact Hiff|].
+        intros p' Hp'. destruct (v =? custom) eqn:Ec.
+        -- apply N.eqb_eq in Ec. rewrite (proj2 Hiff Ec) in Ev.
+           destruct (stable_ok_spec _ _ S2 _ _ Ev) as (p'' & A & B). rewrite (lookup_unique _ _ _ _ Hp' A). exact B.
+        -- assert (Hk : kid = false).
+           { destruct kid; [|reflexivity]. apply N.eqb_neq in Ec. exfalso. apply Ec. apply Hiff. reflexivity. }
+           rewrite Hk in Ev.
+           destruct (stable_ok_spec _ _ S1 _ _ Ev) as (p'' & A & B). rewrite (lookup_unique _ _ _ _ Hp' A). exact B.
+    + (* tables *)
+      inversion HT; subst T. cbn [kt_prefix kt_schema kt_norm] in *.
+      rewrite !andb_true_iff in Hpm. destruct Hpm as [[_ _] S1].
+      destruct (lookup from_p (ks_prefix s)) as [v|] eqn:Ev; [|discriminate]. inversion Hp; subst k.
+      eapply parse_serialize_key; cbn [kt_schema kt_norm kt_prefix gk_fields]; try eassumption.
+      * eapply (Hfields v (ks_id s)). reflexivity.
+      * unfold variant_ok. cbn [kt_prefix gk_variant]. intros p' Hp'.
+        destruct (stable_ok_spec _ _ S1 _ _ Ev) as (p'' & A & B). rewrite (lookup_unique _ _ _ _ Hp' A). exact B.
+Qed.
+
+(* ... in particular the third serialisation equals the second, byte for byte *)
+Corollary reserialization_byte_identical url sch T s k s' :
+  ktype_of url sch = Some T -> wf_schema sch = true ->
+  parse_key T s = Some k -> serialize_key T k = Some s' ->
+  N.of_nat (length (ks_value s')) < two64 ->
+  exists k', parse_key T s' = Some k' /\ serialize_key T k' = Some s'.
+Proof.
+  intros. exists k. split; [eapply reserialization_fixed_point; eassumption | assumption].
 Qed.
